@@ -212,3 +212,84 @@ func runC10Rollout(t *testing.T, c c10RolloutCfg) {
 	rep.Counter("C10", "finalizer_removals", int64(removals))
 	rep.Case("C10", id, revs >= 2 && maxFinalizeCalls >= 2, id, map[string]interface{}{"cfg": c, "revisionsWhenFinalizationBegan": revs, "finalizeCallsInOneSync": maxFinalizeCalls, "finalizerRemovals": removals, "syncs": judged})
 }
+
+// A leftover finalizer on a parent that has meanwhile gone (or been replaced under the same name)
+// behind the cache: the removal finds nothing to update. Whatever the sync answers, the shared
+// cache is left as the API server delivered it (judged by the always-on cache monitor, C17) and
+// nothing is written to a same-named successor.
+func TestVerif_C10_LeftoverFinalizerParentGone(t *testing.T) {
+	for _, how := range []string{"gone", "replaced"} {
+		for _, cluster := range []bool{false, true} {
+			how, cluster := how, cluster
+			id := fmt.Sprintf("c10-leftover-finalizer-parent-%s-cl%v", how, cluster)
+			if !sim.WantCase(id) {
+				continue
+			}
+			t.Run(id, func(t *testing.T) {
+				t.Parallel()
+				rep := sim.R()
+				rep.Begin("C10", id)
+				uid := uniqueID("lg")
+				sc := &scenario{ID: uid, ClusterParent: cluster, Finalize: false, Kinds: []kindCfg{{Kind: "Widget", Method: "InPlace"}}}
+				sc.Kids = []kidCfg{{Kind: "Widget", Name: "k-" + uid, Value: "v1"}}
+				r := prepareScenario(sc)
+				defer r.close()
+				w := r.w
+				w.caseID = id
+				s := w.sim
+				pgvr := sc.parentInfo().GVR()
+				finName := "metacontroller.io/compositecontroller-" + uid
+				s.ExtMutate(pgvr, sc.ns(), sc.parentName(), func(o sim.Obj) {
+					sim.SetNested(o, []interface{}{"example.com/other", finName}, "metadata", "finalizers")
+				})
+				if err := w.start(); err != nil {
+					inconclusive(t, "C10", id, err)
+					return
+				}
+				defer w.flushCounters("C10")
+				if !w.quiesce() {
+					inconclusive(t, "C10", id, w.watchdog)
+					return
+				}
+				for w.q.Len() > 0 {
+					k, _ := w.q.Get()
+					w.q.Forget(k)
+					w.q.Done(k)
+				}
+				// behind the cache the parent goes away
+				s.HoldWatch(pgvr, true)
+				old := s.Peek(pgvr, sc.ns(), sc.parentName())
+				s.ExtMutate(pgvr, sc.ns(), sc.parentName(), func(o sim.Obj) { delete(o["metadata"].(map[string]interface{}), "finalizers") })
+				s.ExtDelete(pgvr, sc.ns(), sc.parentName(), "")
+				var successor sim.Obj
+				if how == "replaced" {
+					n := sim.NewObject(sc.parentInfo(), sc.ns(), sc.parentName())
+					n["spec"] = sim.DeepCopy(old)["spec"]
+					sim.SetLabels(n, sim.Labels(old))
+					successor = s.MustCreate(pgvr, n)
+				}
+				w.noViewMonitor = true
+				w.q.Add(sc.parentKey())
+				var sr *syncResult
+				for w.q.Len() > 0 && sr == nil {
+					if x := w.step(); x != nil && x.Key == sc.parentKey() {
+						sr = x
+					}
+				}
+				s.HoldWatch(pgvr, false)
+				writes := 0
+				if sr != nil {
+					for _, q := range sr.Requests {
+						if q.Actor == "mc" && q.Mutating() && q.OK() && q.Applied {
+							writes++
+							if successor != nil && q.GVR == pgvr && q.Pre != nil && sim.UID(q.Pre) == sim.UID(successor) {
+								rep.Violation("C10", id, "write-to-successor-of-gone-parent", "the sync of the parent that has gone wrote to the same-named object that replaced it: "+q.String(), map[string]interface{}{"requests": sim.DescribeLog(sr.Requests, false)})
+							}
+						}
+					}
+				}
+				rep.Case("C10", id, sr != nil, id, map[string]interface{}{"how": how, "clusterParent": cluster, "acceptedWrites": writes, "err": fmt.Sprint(sr != nil && sr.Err != nil)})
+			})
+		}
+	}
+}
